@@ -62,13 +62,31 @@ def symList (j : Json) (k : String) : Except String (List Sym) := do
 def valList (j : Json) (k : String) : Except String (List Val) := do
   (← getArr j k).toList.mapM jsonVal
 
-def parseAdd (j : Json) : Except String AddArgs := do
+def optBool (j : Json) (k : String) : Except String (Option Bool) :=
+  if isNull j k then pure none else do pure (some (← getBool j k))
+
+/-- "caption": absent = the default `""`, null = an explicit `None`, else the text -/
+def captionArg (j : Json) : Except String (Option Sym) :=
+  match j.getObjVal? "caption" with
+  | .error _ => pure (some 0)
+  | .ok .null => pure none
+  | .ok _ => do pure (some (← getSym j "caption"))
+
+def parseAdd (j : Json) : Except String AddArgsRaw := do
   let valid ← if isNull j "valid" then pure none else do pure (some (← symList j "valid"))
-  pure { category := ← getSym j "category", qtype := ← optSym j "qtype", validUnits := valid,
-         override := ← getBool j "override", defaultUnit := ← optSym j "du",
-         defaultValue := ← optVal j "dv", minV := ← optRat j "min", maxV := ← optRat j "max",
-         minExcl := ← getBool j "minx", maxExcl := ← getBool j "maxx", caption := 0,
-         fromCategory := ← optSym j "from" }
+  let category ← getSym j "category"
+  let qtype ← optSym j "qtype"
+  let ovr ← getBool j "override"
+  let du ← optSym j "du"
+  let dv ← optVal j "dv"
+  let mn ← optRat j "min"
+  let mx ← optRat j "max"
+  let frm ← optSym j "from"
+  let mnx ← optBool j "minx"
+  let mxx ← optBool j "maxx"
+  let cap ← captionArg j
+  let base : AddArgs := AddArgs.mk category qtype valid ovr du dv mn mx false false 0 frm
+  pure (AddArgsRaw.mk base mnx mxx cap)
 
 def parseKind (s : String) : Except String Container :=
   match s with
@@ -108,7 +126,7 @@ def catJ (c : CatInfo) : Json :=
   Json.mkObj [("qtype", symJ c.qtype),
     ("valid", match c.validUnits with | none => .null | some vs => Json.arr (vs.map symJ).toArray),
     ("du", symJ c.defaultUnit), ("dv", valJ c.defaultValue), ("min", optRatJ c.minV),
-    ("max", optRatJ c.maxV), ("minx", .bool c.minExcl), ("maxx", .bool c.maxExcl)]
+    ("max", optRatJ c.maxV), ("minx", .bool c.minExcl), ("maxx", .bool c.maxExcl), ("caption", symJ c.caption)]
 
 def verrJ : VErr → Json
   | .validation op m v => Json.mkObj [("verr", Json.mkObj [("op", .str op.name), ("limit", ratJ m), ("value", valJ v)])]
@@ -155,13 +173,158 @@ def convInfo (g : Reg) (q : Quant) (o : Obj) : Json :=
       | .error e => errJ e)
     Json.mkObj [("conv", Json.arr conv.toArray), ("M", ratJ (magOf this (defaultRow g c this) vs))]
 
+/-! #### produced objects -/
+
+def shapeOfObj : Obj → Shape
+  | .scalar v => .scalar v
+  | .fraction v => .fraction v
+  | .array a _ => .array a
+
+def parseShape (j : Json) : Except String Shape := do
+  let oj ← match j.getObjVal? "obj" with
+    | .ok x => pure x
+    | .error _ => throw "missing obj"
+  let (o, derived) ← parseObj oj
+  if derived then throw "derived object in a production tree" else pure (shapeOfObj o)
+
+def parseOp (s : String) : Except String BinOp :=
+  match s with
+  | "add" => pure .add
+  | "sub" => pure .sub
+  | "mul" => pure .mul
+  | "div" => pure .div
+  | _ => throw s!"bad operation {s}"
+
+def jsonInt (j : Json) : Except String Int :=
+  match j.getInt? with
+  | .ok i => pure i
+  | .error _ => throw "not an integer"
+
+def parseEntry (j : Json) : Except String Entry :=
+  match j with
+  | .arr #[c, u, e] => do pure (← jsonSym c, ← jsonSym u, ← jsonInt e)
+  | _ => throw "bad entry"
+
+def parseUnitExp (j : Json) : Except String (Sym × Int) :=
+  match j with
+  | .arr #[u, e] => do pure (← jsonSym u, ← jsonInt e)
+  | _ => throw "bad unit/exponent"
+
+def parseCatArg (j : Json) : Except String CatArg :=
+  match j.getObjVal? "cats" with
+  | .ok (.arr cs) => do pure (.many (← cs.toList.mapM jsonSym))
+  | .ok (.str s) => do pure (.one (← jsonSym (.str s)))
+  | _ => pure .none
+
+def sub? (j : Json) (k : String) : Except String Json :=
+  match j.getObjVal? k with
+  | .ok x => pure x
+  | .error _ => throw s!"missing {k}"
+
+def parseProv : Nat → Json → Except String Prov
+  | 0, _ => throw "production tree too deep"
+  | n + 1, j => do
+    let k ← getStr j "p"
+    match k with
+    | "direct" => pure (.direct (← getSym j "cat") (← getSym j "unit") (← parseShape j))
+    | "map" => pure (.viaMapping (← (← getArr j "entries").toList.mapM parseEntry) (← parseShape j))
+    | "list" => pure (.viaList (← (← getArr j "units").toList.mapM parseUnitExp) (← parseCatArg j) (← parseShape j))
+    | "num" => pure (.opNumber (← parseProv n (← sub? j "of")) (← parseOp (← getStr j "op")) (← getVal j "x") (← getBool j "left"))
+    | "bin" => pure (.opObjects (← parseProv n (← sub? j "a")) (← parseProv n (← sub? j "b")) (← parseOp (← getStr j "op")))
+    | "pickle" => pure (.pickle (← parseProv n (← sub? j "of")))
+    | "copy" => pure (.copy (← parseProv n (← sub? j "of")) (← optSym j "unit") (← optSym j "cat"))
+    | "validated" => pure (.validated (← parseProv n (← sub? j "of")) (← (← getArr j "calls").toList.mapM parseCall))
+    | _ => throw s!"bad production {k}"
+
+def finMax (vs : List Val) : Rat :=
+  vs.foldl (fun (m : Rat) v => match v with | .fin x => maxR m (absR x) | _ => m) (0 : Rat)
+
+def shapeElems (s : Shape) : List Val := elemsOf s.obj
+
+/-- |slope| of `other.frombase ∘ this.tobase` (how an error of the input is amplified) -/
+def slopeOf (this other : UnitRow) : Rat :=
+  let a : Rat := if this.toBase.r = 0 then 1 else absR (this.toBase.q / this.toBase.r)
+  let b : Rat := if other.fromBase.r = 0 then 1 else absR (other.fromBase.q / other.fromBase.r)
+  maxR 1 (a * b)
+
+def resMag (g : Reg) (p : Prov) : Rat :=
+  match build g p with
+  | .ok (_, s) => finMax (shapeElems s)
+  | .error _ => 0
+
+/-- magnitude the float errors of a production path scale with: the largest intermediate, amplified by the
+factors and conversion slopes applied afterwards -/
+def provMag (g : Reg) : Prov → Rat
+  | .direct _ _ s => finMax (shapeElems s)
+  | .viaMapping _ s => finMax (shapeElems s)
+  | .viaList _ _ s => finMax (shapeElems s)
+  | .opNumber p op x nl =>
+    let m := provMag g p
+    let ax : Rat := match x with | .fin a => absR a | _ => 1
+    -- number / v: an error d of v becomes |x| / v^2 * d
+    let vmin : Rat := match build g p with
+      | .ok (_, s) => (shapeElems s).foldl (fun (a : Rat) v => match v with
+          | .fin y => if y = 0 then a else if a = 0 then absR y else (if absR y < a then absR y else a)
+          | _ => a) (0 : Rat)
+      | .error _ => 0
+    let amp : Rat := match op with
+      | .mul => maxR 1 ax
+      | .div => if nl then (if vmin = 0 then 1 else maxR 1 (ax / (vmin * vmin)))
+                else if ax = 0 then 1 else maxR 1 (1 / ax)
+      | _ => 1
+    maxR (maxR (m * amp) ax) (resMag g (.opNumber p op x nl))
+  | .opObjects p1 p2 op =>
+    let m1 := provMag g p1
+    let m2 := provMag g p2
+    let m2' : Rat := match build g p1, build g p2 with
+      | .ok (q1, _), .ok (q2, s2) =>
+        match sameQuantityOp g q1 q2 with
+        | .ok (_, some (this, other)) => slopeOf this other * m2 + magOf this other (shapeElems s2)
+        | _ => m2
+      | _, _ => m2
+    maxR (maxR m1 m2') (resMag g (.opObjects p1 p2 op))
+  | .pickle p => provMag g p
+  | .validated p _ => provMag g p
+  | .copy p unit cat =>
+    let m := provMag g p
+    match build g p, build g (.copy p unit cat) with
+    | .ok (.simple c u _, s), .ok (.simple _ u' _, _) =>
+      if u == u' then m else
+      match convRowsOf g c.name u u' with
+      | .ok (this, other) => slopeOf this other * m + magOf this other (shapeElems s)
+      | .error _ => m
+    | _, _ => m
+
+def runProv (g : Reg) (j : Json) : Except String Json := do
+  let p ← parseProv 12 (← sub? j "tree")
+  let cs ← (← getArr j "calls").toList.mapM parseCall
+  match build g p with
+  | .error e => pure (errJ e)
+  | .ok (q, s) =>
+    let o := s.obj
+    let outs := calls g q o cs
+    let vals := shapeElems s
+    match q with
+    | .derived =>
+      pure (Json.mkObj [("ok", Json.mkObj [("derived", .bool true), ("outs", Json.arr (outs.map callOutJ).toArray),
+        ("vals", Json.arr (vals.map valJ).toArray), ("conv", Json.arr #[]), ("M", ratJ (provMag g p))])])
+    | .simple c u this =>
+      let ci := convInfo g q o
+      let other := defaultRow g c this
+      let m : Rat := magOf this other vals + slopeOf this other * provMag g p
+      pure (Json.mkObj [("ok", Json.mkObj [("derived", .bool false), ("outs", Json.arr (outs.map callOutJ).toArray),
+        ("unit", symJ u), ("cat", symJ c.name), ("vals", Json.arr (vals.map valJ).toArray),
+        ("conv", ci.getObjValD "conv"), ("M", ratJ m), ("Mv", ratJ (provMag g p))])])
+
 def runOp (g : Reg) (j : Json) : Except String (Reg × Json) := do
   let k ← getStr j "k"
   match k with
   | "add" =>
     let a ← parseAdd j
-    match addCategory g a with
-    | .ok (g', info) => pure (g', Json.mkObj [("ok", catJ info)])
+    match addCategoryRaw g a with
+    | .ok (g', info) =>
+      let gdv : Json := match getDefaultValue g' a.base.category with | .ok v => valJ v | .error e => errJ e
+      pure (g', Json.mkObj [("ok", (catJ info).setObjVal! "gdv" gdv)])
     | .error e => pure (g, errJ e)
   | "obj" =>
     let c? ← optSym j "cat"
@@ -249,6 +412,36 @@ def runOp (g : Reg) (j : Json) : Except String (Reg × Json) := do
               ("conv", cci.getObjValD "conv"), ("M", ratJ (m2 + extra))])]
         pure (g, Json.mkObj [("ok", Json.mkObj [("src", srcJ), ("copy", copyJ)])])
     | _ => throw "copy needs an array"
+  | "prov" => do pure (g, ← runProv g j)
+  | "gdv" =>
+    match getDefaultValue g (← getSym j "cat") with
+    | .ok v => pure (g, Json.mkObj [("ok", valJ v)])
+    | .error e => pure (g, errJ e)
+  | "cvc" =>
+    let c ← getSym j "cat"
+    let v ← getVal j "v"
+    let u ← optSym j "unit"
+    let out : Json := match checkValueForCategory g c v u with
+      | .ok _ => Json.mkObj [("ok", .null)]
+      | .error e => verrJ e
+    let (conv, m, unit) : Json × Json × Sym := match obtainFor g c u with
+      | .ok q =>
+        let ci := convInfo g q (.scalar v)
+        (ci.getObjValD "conv", ci.getObjValD "M", match q with | .simple _ u' _ => u' | .derived => 0)
+      | .error _ => (Json.arr #[], ratJ 0, 0)
+    pure (g, Json.mkObj [("ok", Json.mkObj [("out", out), ("conv", conv), ("M", m), ("unit", symJ unit)])])
+  | "val" =>
+    match mkQuant g (← getSym j "cat") (← getSym j "unit") with
+    | .error e => pure (g, errJ e)
+    | .ok q =>
+      let v ← getVal j "v"
+      let ci := convInfo g q (.scalar v)
+      let out : Json := match validatorPredicate g q v with
+        | .error e => errJ e
+        | .ok none => Json.mkObj [("ok", .null)]
+        | .ok (some e) => verrJ e
+      let unit : Sym := match q with | .simple _ u' _ => u' | .derived => 0
+      pure (g, Json.mkObj [("ok", Json.mkObj [("out", out), ("conv", ci.getObjValD "conv"), ("M", ci.getObjValD "M"), ("unit", symJ unit)])])
   | _ => throw s!"unknown op kind {k}"
 
 def runOps : Reg → List Json → Except String (List Json)
